@@ -44,6 +44,26 @@ def check(run):
         i = run.rng.randint(0, n if op != "Remove" else n - 1)
         k = run.rng.randint(0, n - i) if op == "RemoveSlice" else run.rng.randint(0, 8)
         plans.append([case(op, s, sp, i, k, 41, [run.rng.randint(40, 49) for _ in range(k)])])
+    # "whatever spare capacity the slice had": short contents in large backing arrays (what is left of a slice that was once big):
+    # every position and count for lengths up to 9 / 12 with spare capacities 60..1000, plus a few longer ones
+    big = []
+    for sp in (60, 64, 100, 250, 1000):
+        for n in list(range(0, 10 if run.quick() else 13)) + [16, 33]:
+            s0 = list(range(1, n + 1))
+            for i in range(0, n + 1):
+                if n > 12 and i not in (0, 1, n // 2, n - 1, n):
+                    continue
+                if i < n:
+                    big.append([case("Remove", s0, sp, i)])
+                for k in range(0, n - i + 1):
+                    if n > 12 and k not in (0, 1, 2, n - i - 1, n - i):
+                        continue
+                    big.append([case("RemoveSlice", s0, sp, i, k)])
+                for k in (0, 1, 3):
+                    big.append([case("InsertSlice", s0, sp, i, k, 41, [41 + j for j in range(k)])])
+                big.append([case("Insert", s0, sp, i, 0, 41)])
+            big.append([case("Grow", s0, sp, 0, 5)])
+    plans += big if not run.quick() else run.rng.sample(big, 1200)
     segs = execute(run, plans)
     if len(segs) != len(plans):
         raise Inconclusive("driver returned %d events for %d plans" % (len(segs), len(plans)))
@@ -52,7 +72,8 @@ def check(run):
     run.cov.update(conformance=conf, exhaustive=True,
                    distinct_nontrivial=distinct_count(segs, lambda s: len(s[0]["s"]) + s[0]["k"] > 0),
                    rule="one case per (helper, length 0..%d, spare capacity 0..%d, position, count) cell enumerated by TLC from Splice.tla "
-                        "+ Concat/Clone/Repeat cells + fill/reverse lengths around powers of two + seeded larger cases; "
+                        "+ Concat/Clone/Repeat cells + fill/reverse lengths around powers of two + seeded larger cases + short contents in backing "
+                        "arrays with 60-1000 spare elements (every position and count; quick: 1200 sampled); "
                         "non-trivial = non-empty input or count" % (ml, msp))
     run.cov["samples"] = [segs[7][0], segs[-1][0]]
     run.assumptions += ["element type int", "GoSlice growth policy: any capacity >= needed (contents do not depend on it)"]
